@@ -24,7 +24,7 @@ CONSTANTS SubDirs,       \* relative sub-directories; the base itself is "."
 
 Base == "."
 Dirs == SubDirs \cup {Base}
-NoDir == "nodir"
+NoDir == [n \in Names |-> "nodir"]          \* the directory does not exist (a function, to stay comparable)
 Fresh == [n \in Names |-> "none"]             \* a directory just created by MkdirAll
 NoContent == <<>>                             \* the empty desired map
 
@@ -114,13 +114,13 @@ DirDes == {f \in UNION {[D -> DesTok] : D \in SUBSET Managed} : TRUE}
 Contents2 == {c \in UNION {[D -> DirDes] : D \in SUBSET Dirs} :
                  Cardinality({<<d, n>> \in Dirs \X Managed : d \in DOMAIN c /\ n \in DOMAIN c[d] /\ c[d][n] \in BadTok}) <= MaxBad}
 
-TInit == \E tr \in InitTrees, c \in Contents2 : ts = TStart(tr, c)
-TNext == ts' \in TSucc(ts)
-TSpec == TInit /\ [][TNext]_ts
+\* (s, the variable of SyncDir, is not used by this module's behaviours)
+TInit == s = "unused" /\ \E tr \in InitTrees, c \in Contents2 : ts = TStart(tr, c)
+TNext == ts' \in TSucc(ts) /\ UNCHANGED s
+TSpec == TInit /\ [][TNext]_<<ts, s>>
 
 TreePost == ts.phase = "done" => TreePostOK(ts.tree0, ts.con0, TOut(ts))
-TreeNeverTouchUnmanaged ==
-    \A d \in Dirs, u \in Unmanaged : Entry(ts.tree, d, u) = Entry(ts.tree0, d, u) \/ ts.tree[d] = Fresh
+TreeNeverTouchUnmanaged == \A d \in Dirs, u \in Unmanaged : Entry(ts.tree, d, u) = Entry(ts.tree0, d, u)
 \* vacuity monitors (must be violated)
 NoTreeFailClosed == ~(ts.phase = "done" /\ ts.err /\ ts.removed # {})
 NoUnrelatedDirRemoved == ~(ts.phase = "done" /\ UnrelatedDirRemoved(ts.tree0, ts.con0, TOut(ts)))
